@@ -5,7 +5,7 @@ CLAIMED = {
         text="Proof (all option names, all subsets of passed arguments, all values, all stored user options): relational "
              "non-interference obligation generated from the real text of runpp / _passed_runpp_parameters / "
              "_init_runpp_options / _add_*_options with explicit call-binding model; every path pair is an SMT query. "
-             "The one failing input class is the recorded known finding (passed value == signature default).",
+             "The one failing input class is the recorded known finding (passed value == signature default). An argument whose option is stored under another name (delta_q -> delta) overrides the stored option of that name as well.",
         note="Assumed: CPython call binding as modelled; helper checks (_check_lightsim2grid_compatibility, numba check, tdpf check) "
              "are pure functions of their arguments and of the element tables; _powerflow uses net._options as found on entry. "
              "Not decided: run_control=True, recycle shortcut."),
@@ -23,7 +23,7 @@ CLAIMED = {
              "OCRelay.protection_function (all relay types and curve types, both scenarios) related by i1 <= i2: trip time non-increasing "
              "over the extended reals, trip <=> current exceeds pick-up/start, activation value = own switch current of the chosen result "
              "table, ValueError for other scenarios; Fuse.__init__ from a standard type establishes i_start_a/i_stop_a = min/max of the x "
-             "data of the characteristic it evaluates for every curve selection. The history 'evaluate, re-parameterise, evaluate' of one fuse only as a bounded native stand-in.",
+             "data of the characteristic it evaluates for every curve selection. The history 'evaluate, re-parameterise, evaluate' of one fuse only as a bounded native stand-in. Bounded native stand-in also: a fuse evaluated, printed (str) and evaluated again; DTOC / IDTOC relays with a hand-entered I>> stage; IDMT relays whose hand-entered settings tables are ordered differently from the switches.",
         note="Assumed (hypotheses of the statement): characteristic callable non-increasing and non-negative on [i_start, i_stop]; consistently "
              "graded relay settings; x**alpha monotone for alpha > 0. Not decided: scipy interpolation itself, time_grading/"
              "create_protection_function."),
@@ -51,7 +51,7 @@ CLAIMED = {
         text="Proof: _update_contingency_results_parallel in both call modes satisfies, for a generic row, the same step specification "
              "that the sequential _update_contingency_results is proved against (C14) with the tripped element's own row and "
              "out-of-service rows excluded, hence equal folds for equal task order; the worker _run_single_contingency evaluates a copy "
-             "(caller's table object and cells untouched on normal and exceptional exit) and returns the result columns of that copy. The task list of the parallel path (which cases, in which order) only as a bounded native stand-in (exact ties, unsorted index).",
+             "(caller's table object and cells untouched on normal and exceptional exit) and returns the result columns of that copy. The task list of the parallel path (which cases, in which order) only as a bounded native stand-in (exact ties, unsorted index). The bounded native stand-in also calls the parallel analysis with an explicit raise_errors and with N-1 power flows started from the previous results (n_procs 1..3).",
         note="Assumed: multiprocessing.Pool.map preserves task order (completion order is irrelevant to it); copy/deepcopy semantics; "
              "evaluation function pure. Not decided: the power flows."),
     "C30": dict(
